@@ -286,6 +286,19 @@ pub fn hostile_call(seed: u64, index: u64) -> Call {
                     v.push(start.wrapping_add(j.wrapping_mul(stride)));
                 }
             }
+            if rng.chance(0.3) {
+                // a complete, stride-aligned sibling group of non-cells: a valid group moved onto a face that does not exist
+                let r = rng.below(30) as i32;
+                let c = gen::random_cell(rng, r);
+                if let Some(p) = parent_at(c, c.res - 1) {
+                    let shift: u64 = if r == 0 { 12 * (1 + rng.below(4)) } else { 60 + rng.below(4) };
+                    for k in children_at(p, c.res) {
+                        let w = encode(k);
+                        let top6 = if r == 0 { (w >> 58) + shift } else { shift };
+                        v.push((w & ((1u64 << 58) - 1)) | ((top6 & 63) << 58));
+                    }
+                }
+            }
             rng.shuffle(&mut v);
             Call::Compact(v)
         }
